@@ -171,6 +171,39 @@ def run(ck):
             ck.violation(f'{len(badrows)} of {len(Qp)} probability rows are not distributions (first: row {badrows[:1]} = {Pp[badrows[0]].tolist() if badrows and Pp.ndim == 2 else None}) '
                          f'on a model with {pure} leaves trained on one class only, {descp}', dict(descp, rows=Qp[badrows[:3]].tolist() if badrows else [], pure_leaves=pure),
                          key=json.dumps(dict(site='proba', what='pure-leaves', mode=modep)))
+    # ---- logistic leaf solver (binary, zero/one encoding), single hard-routed tree: probabilities and labels come from the same decoder — the label is the arg-max of the row
+    for j in range(ck.n(3, 10)):
+        nl, dl = 150, 3
+        Xl = xr.make_X('random', nl, dl, rng); yl = ((Xl[:, 0] + 0.8 * rng.standard_normal(nl)) > 0).astype(np.int64)        # noisy labels: many rows with P(class 1) near 1/2
+        Xvl = xr.make_X('random', 60, dl, rng); yvl = ((Xvl[:, 0] + 0.8 * rng.standard_normal(60)) > 0).astype(np.int64); yvl[0] = 0; yvl[1] = 1
+        pl = xr.default_rfm_params(kernel=['l2', 'l1', 'l2_high_dim'][j % 3], iters=[0, 1][j % 2], reg=[1e-1, 1.0][j % 2], bandwidth=4.0)
+        pl[['fit', 'model'][j % 2]]['solver'] = 'log_reg'
+        descl = dict(kind='logistic leaves', j=j, n=nl, L=[10_000, 60][(j // 2) % 2], seed=ck.seed)
+        xr.seed_all(1290 + j + ck.seed)
+        ml = xr.xRFM(rfm_params=pl, max_leaf_size=descl['L'], n_trees=1, verbose=False, tuning_metric=['brier', 'accuracy', 'logloss'][j % 3], classification_mode='zero_one',
+                     use_temperature_tuning=False)
+        try:
+            with xr.quiet():
+                ml.fit(torch.tensor(Xl), torch.tensor(yl), torch.tensor(Xvl), torch.tensor(yvl))
+        except Exception as e:
+            ck.count('logistic fit failed'); ck.notes.append(f'logistic fit failed {descl}: {e!r}'[:300]); continue
+        Ql = np.concatenate([Xl[:60], xr.make_X('random', 100, dl, rng), 1e6 * (np.abs(xr.make_X('random', 2, dl, rng)) + 1.0)]).astype(np.float32)
+        with xr.quiet():
+            Pl = np.asarray(ml.predict_proba(torch.tensor(Ql)), dtype=np.float64); labl = np.asarray(ml.predict(torch.tensor(Ql)))
+        ck.case(descl, nontrivial=True); ck.count('logistic leaves: label vs arg-max rows', len(Ql))
+        okrows = Pl.shape == (len(Ql), 2) and np.all(np.isfinite(Pl)) and np.all(Pl >= 0) and np.all(np.abs(Pl.sum(1) - 1) < 1e-5)
+        if not okrows or labl.shape != (len(Ql),) or labl.min() < 0 or labl.max() > 1:
+            ck.violation(f'logistic leaves: predict_proba / predict returned invalid rows or labels (shape {Pl.shape}, labels {sorted(set(labl.tolist()))[:4]}) on {descl}', dict(descl),
+                         key=json.dumps(dict(site='proba', what='logistic-valid')))
+        else:
+            clear = np.abs(Pl[:, 1] - Pl[:, 0]) > 1e-5
+            badl = np.nonzero(clear & (Pl.argmax(1) != labl))[0]
+            ck.count('logistic rows with P(class 1) in (0.5, 0.62]', int(((Pl[:, 1] > 0.5) & (Pl[:, 1] <= 0.62)).sum()))
+            if len(badl):
+                r = int(badl[0])
+                ck.violation(f'label is not the arg-max of the probability row (single hard-routed tree, logistic leaf solver): row {Ql[r].tolist()} has probabilities {Pl[r].tolist()} '
+                             f'and label {int(labl[r])}; {len(badl)} of {len(Ql)} rows on {descl}', dict(descl, row=Ql[r].tolist(), proba=Pl[r].tolist(), label=int(labl[r])),
+                             key=json.dumps(dict(site='proba', what='logistic-argmax')))
     res = ck.run_bool_cases('proba', HEADER, cases, shard=6)
     bad = [meta[k] for k, v in res.items() if v is not True]
     ck.obligation(f'correspondence: predict_proba of {len(cases)} real fits == Q model (decode/clamp/normalise/tree mean) on the implementation\'s raw leaf outputs',
